@@ -1087,9 +1087,10 @@ def run_sched_case(rng, tmp, idx, kind, nthreads, per, seed, schedule=None):
                 try:
                     results[name] = []
                     for _ in range(per):
+                        called_at = len(events)          # position in the log when new_oid was CALLED
                         o = u64(st.new_oid())
                         results[name].append(o)
-                        events.append(('i', o))
+                        events.append(('i', o, called_at))
                 finally:
                     sys.settrace(None)
 
@@ -1098,7 +1099,7 @@ def run_sched_case(rng, tmp, idx, kind, nthreads, per, seed, schedule=None):
                 try:
                     for i in range(nstores):
                         # a record copied in with an id far above, or just above, what has been handed out
-                        o = 1000 * (i + 1) if far else max([x for k, x in events] + [0]) + 2
+                        o = 1000 * (i + 1) if far else max([e[1] for e in events] + [0]) + 2
                         stored.append(o)
                         t = TransactionMetaData()
                         st.tpc_begin(t, tid_of(10 + i))
@@ -1124,13 +1125,14 @@ def run_sched_case(rng, tmp, idx, kind, nthreads, per, seed, schedule=None):
         dup = sorted({o for o in ids if ids.count(o) > 1})
         bad = '%s: concurrent new_oid callers received the same id(s) %s' % (kind, dup[:5])
     else:
-        seen_store = set()
-        late = []
-        for k, o in events:
-            if k == 's':
-                seen_store.add(o)
-            elif o in seen_store:
-                late.append(o)
+        # an id is wrong only if the store of that oid had RETURNED before new_oid was CALLED (an allocation
+        # whose increment happened before the store, but whose return is logged after it, issued a fresh id:
+        # the committer then chose an id that was already on its way out)
+        stored_at = {}
+        for pos, e in enumerate(events):
+            if e[0] == 's':
+                stored_at.setdefault(e[1], pos)
+        late = [e[1] for e in events if e[0] == 'i' and e[1] in stored_at and stored_at[e[1]] < e[2]]
         if late or (kind == 'demo' and set(ids) & {1, 2, 3}):
             bad = '%s: an id handed to a concurrent caller identifies an object stored before: %s' % (
                 kind, sorted(set(late) | (set(ids) & {1, 2, 3} if kind == 'demo' else set())))
